@@ -74,7 +74,13 @@ class Node:
     def __add__(self, other):
         self.neighbors[other] = None
         other.neighbors[self] = None
-        self._update()
+
+        # Each node rebuilds its routes from the ones of its neighbors, some of which
+        # are not refreshed yet when the graph contains cycles. The relaxation is
+        # repeated until the routes are stable, to guarantee the shortest paths.
+        while self._update():
+            pass
+
         return other
 
     @property
@@ -82,10 +88,15 @@ class Node:
         return [self.path(node_name)[-1] for node_name in self.routes.keys()] + [self]
 
     def _update(self, already_updated=None):
+        """Rebuild the routes of this node, then of all the others of the graph
 
-        self.routes = {}
+        Return:
+            bool: True if a route changed somewhere in the graph
+        """
+
+        routes = {}
         for node in self.neighbors:
-            self.routes[node.name] = Route(node, 1)
+            routes[node.name] = Route(node, 1)
 
             # Retrieve route from neighbors
             for name, route in node.routes.items():
@@ -96,15 +107,19 @@ class Node:
                     continue
 
                 # check if the node actually at hand (name) is not already
-                # integrated in the self.routes or if it already is, if the
+                # integrated in the routes or if it already is, if the
                 # path is shorter
-                if (
-                    name in self.routes.keys()
-                    and self.routes[name].steps <= route.steps
-                ):
+                if name in routes.keys() and routes[name].steps <= route.steps:
                     continue
 
-                self.routes[name] = Route(node, route.steps + 1)
+                routes[name] = Route(node, route.steps + 1)
+
+        def summary(routes):
+            return {k: (v.direction, v.steps) for k, v in routes.items()}
+
+        changed = summary(routes) != summary(self.routes)
+        if changed:
+            self.routes = routes
 
         # This set serves as a shared lock, every object that is in this set
         # won't be updated by others. This is to avoid infinite recursions
@@ -116,7 +131,9 @@ class Node:
         # Recursive update (with lock)
         for node in self.neighbors:
             if node not in already_updated:
-                node._update(already_updated)
+                changed = node._update(already_updated) or changed
+
+        return changed
 
     def path(self, goal):
         """Get the shortest way between two nodes of the graph
